@@ -8,9 +8,9 @@
  *   C05_COLON     1: the address contains at least one ':' (legal in OSC 1.0, but see findings)
  *   C05_PART      0: everything EXCEPT the two known signatures is asserted
  *                 1: ONLY the known signatures are asserted (these obligations fail while the findings stand)
- * Symbolic: every address byte (any byte a pattern's literal text can spell, see spec_is_literal; plus ':'
- * when C05_COLON), the type tag string (length 0..3, any non-NUL bytes), and the 4+C05_TAIL bytes after the
- * type tags (argument payload / whatever follows the message in its buffer).
+ * Symbolic: every address byte (any non-NUL byte; ':' only when C05_COLON), the type tag string (length 0..3,
+ * any non-NUL bytes), and the 4+C05_TAIL bytes after the type tags (argument payload / whatever follows the
+ * message in its buffer).
  *
  * Known signatures (printed as KF tags in the native replay):
  *   prefix-alternative : pattern has a prefix alternative, statement demands a match, code says no
@@ -48,7 +48,7 @@ void h_match_eq(void)
     bool has_colon = false;
     for(unsigned k = 0; k < C05_AL; k++) {
         char c = (char)IN.addr[k];
-        V_ASSUME(spec_is_literal(c) || (C05_COLON && c == ':'));
+        V_ASSUME(c != 0 && (C05_COLON || c != ':'));
         if(c == ':') has_colon = true;
         buf[k] = c;
     }
